@@ -333,7 +333,7 @@ func structuredLayouts() []layout {
 		add(one("thumbs-endnumber", videoSet(vrep("V1", 1000, 3, 40, 50, "trex")), img5))
 	}
 	// --- MPD level
-	for _, k := range []string{"garbage", "dynamic", "two_periods", "no_type"} {
+	for _, k := range []string{"garbage", "dynamic", "two_periods", "no_type", "no_duration", "no_type_no_duration"} {
 		l := one("mpd-"+k, videoSet(vrep("V1", 1000, 3, 40, 50, "trex")))
 		l.MPDs[0].Kind = k
 		add(l)
